@@ -217,15 +217,23 @@ def layout(out, ed):
                 phys.append((i, line))
         last_line[i] = len(phys)
     if case:
-        phys = [(i, recase(l, case)) for i, l in phys]
+        # a character literal continued over the line end stays a literal on the next line
+        q = None
+        out_ = []
+        for i, l in phys:
+            l2, q = recase(l, case, q)
+            out_.append((i, l2))
+        phys = out_
     return {"phys": phys, "last_line": last_line, "stmts": stmts, "incs": incs}
 
 
-def recase(line, style):
-    """Change letter case outside character literals and comments (style 1 upper, 2 capitalised words)."""
+def recase(line, style, q=None):
+    """Change letter case outside character literals and comments (style 1 upper, 2 capitalised words).
+    q: the quote character of a literal continued from the previous line; returns (text, open quote at the line end)."""
     out = []
-    q = None
     incmt = False
+    if q and line.lstrip().startswith("!"):
+        return line, q                     # a comment line between the two halves of a continued literal
     word_start = True
     for ch in line:
         if incmt:
@@ -251,7 +259,7 @@ def recase(line, style):
         else:
             out.append(ch)
             word_start = not (ch.isdigit() or ch == "_")
-    return "".join(out)
+    return "".join(out), (q if q and "".join(out).rstrip().endswith("&") else None)
 
 
 def split_at(s, where):
